@@ -26,6 +26,8 @@ def run(ctx, rep):
     rep.rule("R16-SEED", "every runnable is run with the seed of the run, unchanged", floor=1)
     rep.rule("R16-VERDICT", "TestResult::is_success, read as a decision table over (counterexample: Err | Ok(None) | Ok(Some)) x (OnTestFailure mode), equals the specification: an errored run never passes; fail-once passes only with a counterexample", floor=9)
     rep.guarded("R16-VERDICT", lambda: r_verdict(sh, rep))
+    rep.rule("R16-REIFYPAIR", "a counterexample's Pair is printed with its components in place: simulating the vector operations that take the two reified elements apart, `fst` receives the first and `snd` the second", floor=2)
+    rep.guarded("R16-REIFYPAIR", lambda: r_reifypair(sh, rep))
     rep.guarded("R16-SEED", lambda: r_seed_cli(sh, rep))
     rep.rule("R16-PURE", "no clock / RNG / environment / thread-identity call in the test framework besides the reviewed display-only site", floor=1)
     rep.rule("R16-GUARD", "every `v.len() - k` inside Counterexample::simplify is under a non-emptiness / length test of the same vector", floor=3)
@@ -531,3 +533,77 @@ def r_verdict(sh, rep):
         except _Unknown as e:
             why = "not evaluable: %s" % e
         rep.check(got is want, "R16-VERDICT", "is_success#%s#%s" % (cn, md), sh.loc(TF, f), "for a property test in mode %s whose run ended with counterexample = %s, is_success gives %s (%s); it must give %s — %s" % (md, cn, got, why or "evaluated from the match", want, "a fuzzer that crashed has falsified nothing" if cn == "Err" else "the verdict follows the presence of a counterexample"), sample={"counterexample": cn, "mode": md, "is_success": got})
+
+
+# ---------------------------------------------------------------------------------------------------------
+# R16-REIFYPAIR
+# ---------------------------------------------------------------------------------------------------------
+def r_reifypair(sh, rep):
+    """The counterexample a property test reports is the reified value, printed. For a Pair the two reified components sit
+    in a Vec [first, second] and are moved into `UntypedExpr::Pair { fst, snd }` by Vec operations (remove(0), pop(), ..):
+    the operations are simulated on ['first', 'second'] in source order and each field is traced to the element it gets."""
+    EX = "crates/aiken-lang/src/expr.rs"
+    f = find_method(sh.file(EX), "UntypedExpr", "do_reify_data")
+    rep.touched(EX, "UntypedExpr::do_reify_data")
+    arms = [a for a in walk(f["body"]) if a.get("k") == "Arm" and any((x.get("p") or "").endswith("Type::Pair") for x in walk(a["pat"]) if x.get("k") in ("PStruct", "PTupleStruct"))]
+    lits = [(a, x) for a in arms for x in walk(a["body"]) if x.get("k") == "Struct" and (x.get("p") or "").endswith("UntypedExpr::Pair")]
+    if not lits:
+        raise AnchorMissing("UntypedExpr::Pair literal in the Type::Pair arm of do_reify_data")
+    arm, lit = lits[0]
+    vecs = [st["pat"]["name"] for st in walk(arm["body"]) if st.get("k") == "Local" and st["pat"].get("k") == "Ident" and st["pat"].get("mut")]
+    if not vecs:
+        raise AnchorMissing("the vector of reified components")
+    vec = vecs[0]
+    ops = sorted([c for c in walk(arm["body"]) if c.get("k") == "MethodCall" and c["recv"].get("k") == "Path" and c["recv"]["p"] == vec and c["m"] in ("remove", "pop", "swap_remove", "first", "last", "get")], key=lambda c: (c["s"][0], c["s"][1]))
+    state, got = ["first", "second"], {}
+    for c in ops:
+        m = c["m"]
+        arg = int(c["args"][0]["v"]) if c["args"] and c["args"][0].get("k") == "Lit" and str(c["args"][0].get("v")).isdigit() else None
+        try:
+            if m == "remove":
+                got[id(c)] = state.pop(arg)
+            elif m == "pop":
+                got[id(c)] = state.pop()
+            elif m == "swap_remove":
+                v = state[arg]
+                state[arg] = state[-1]
+                state.pop()
+                got[id(c)] = v
+            elif m == "first":
+                got[id(c)] = state[0]
+            elif m == "last":
+                got[id(c)] = state[-1]
+            elif m == "get":
+                got[id(c)] = state[arg]
+        except (IndexError, TypeError):
+            got[id(c)] = "?"
+    # names bound to the operations by a `match (op, op) { (Some(a), Some(b)) => .. }` / `let (a, b) = (op, op)`
+    bound = {}
+    for n in walk(arm["body"]):
+        scrut, pats = None, []
+        if n.get("k") == "Match" and n["e"].get("k") == "Tuple":
+            scrut, pats = n["e"], [pa for a in n["arms"] for pa in pat_alts(a["pat"]) if pa.get("k") == "PTuple"]
+        elif n.get("k") == "Local" and n.get("init") is not None and n["init"].get("k") == "Tuple" and n["pat"].get("k") == "PTuple":
+            scrut, pats = n["init"], [n["pat"]]
+        if scrut is None:
+            continue
+        for pa in pats:
+            for pe, ee in zip(pa["elems"], scrut["es"]):
+                idents = [x["name"] for x in walk(pe) if x.get("k") == "Ident" and not x["name"][:1].isupper()]
+                calls = [c for c in walk(ee) if id(c) in got]
+                if len(idents) == 1 and calls:
+                    bound[idents[0]] = got[id(calls[0])]
+    for fld, want in (("fst", "first"), ("snd", "second")):
+        e = next((fi["e"] for fi in lit["fields"] if fi["name"] == fld), None)
+        src = None
+        if e is not None:
+            calls = [c for c in walk(e) if id(c) in got]
+            if calls:
+                src = got[id(calls[0])]
+            else:
+                names = [x["p"] for x in walk(e) if x.get("k") == "Path" and x["p"] in bound]
+                src = bound[names[0]] if names else None
+            if src is None and any(x.get("k") == "Index" for x in walk(e)):
+                ix = next(x for x in walk(e) if x.get("k") == "Index")
+                src = ["first", "second"][int(ix["i"]["v"])] if ix["i"].get("k") == "Lit" else None
+        rep.check(src == want, "R16-REIFYPAIR", "do_reify_data#Pair#%s" % fld, sh.loc(EX, lit), "the `%s` of a reified Pair receives the %s reified component (it must be the %s): the counterexample is printed with its components swapped — Pair(0, 1) for the value Pair(1, 0) — and, pasted into a test, no longer falsifies the property" % (fld, src or "unrecognised", want), sample={"field": fld, "gets": src})
